@@ -27,14 +27,15 @@ Theorem C12_ps_forward_coverage : forall t h fuel,
 Proof. exact ps_forward_coverage_all. Qed.
 Print Assumptions C12_ps_forward_coverage.
 
-(* --- the same for _tdvp_ps_backward: one-site steps in pre-order, bond steps in pre-order of the child ends *)
+(* --- the same for _tdvp_ps_backward (children visited in DEcreasing index since fix 036c1e3): one-site steps
+   and bond steps in the exact reverse of the forward order *)
 Theorem C12_ps_backward_coverage : forall t h fuel,
   NoDup (ids t) -> (fuel_bound t <= fuel)%nat ->
   exists evs,
     ps_backward fuel h t = Some (mkS [] evs false)
     /\ evs = bwd h None t
-    /\ ev1_of evs = tag h (ids t)
-    /\ ev0_of evs = tag (- h) (edge_ids t)
+    /\ ev1_of evs = tag h (rev (postorder t))
+    /\ ev0_of evs = tag (- h) (rev (flat_map postorder (tch t)))
     /\ covered (ev1_of evs) (ids t) h
     /\ covered (ev0_of evs) (edge_ids t) (- h)
     /\ centre_run (AtNode (tid t)) evs = Some (AtNode (tid t)).
@@ -57,34 +58,23 @@ Theorem C12_ps_step_times : forall t h, NoDup (ids t) ->
 Proof. exact ps_step_times_all. Qed.
 Print Assumptions C12_ps_step_times.
 
-(* --- the backward sweep is the time reverse of the forward sweep OF THE TREE WITH REVERSED CHILD ORDER
-   (both sweeps visit children in increasing index); physical events = propagations and moves of the centre *)
-Theorem C12_ps_backward_mirror : forall h t,
-  phys (bwd h None t) = map mirror (rev (phys (fwd h None (rev_children t)))).
-Proof. exact ps_backward_mirror_all. Qed.
-Print Assumptions C12_ps_backward_mirror.
-
-(* --- hence the step is time-symmetric when every node has at most one child (a chain) ... *)
-Theorem C12_ps_symmetric_linear : forall h t, is_linear t = true ->
+(* --- the backward sweep is the exact time reverse of the forward sweep on EVERY tree (physical events =
+   propagations and moves of the centre): the step is a symmetric (Strang) composition, hence second order.
+   This became true with fix 036c1e3; before it both sweeps visited the children in increasing index. *)
+Theorem C12_ps_symmetric : forall h t,
   phys (bwd h None t) = map mirror (rev (phys (fwd h None t))).
-Proof. exact ps_symmetric_linear_all. Qed.
-Print Assumptions C12_ps_symmetric_linear.
+Proof. exact ps_symmetric_all. Qed.
+Print Assumptions C12_ps_symmetric.
 
-(* --- precisely: with distinct ids the step is time-symmetric IF AND ONLY IF the tree is a chain *)
-Theorem C12_ps_symmetric_iff_linear : forall h t, NoDup (ids t) ->
-  (phys (bwd h None t) = map mirror (rev (phys (fwd h None t))) <-> is_linear t = true).
-Proof. exact ps_symmetric_iff_linear. Qed.
-Print Assumptions C12_ps_symmetric_iff_linear.
-
-(* --- ... and is not on a branching tree (stated as it is true; not demanded by the property, DESIGN §12) *)
-Theorem C12_ps_not_symmetric_branching_refuted :
-  exists t h, NoDup (ids t) /\ phys (bwd h None t) <> map mirror (rev (phys (fwd h None t))).
+(* --- documentation of the repaired defect: the old backward order (bwd_inc) was not symmetric on a branching tree *)
+Theorem C12_ps_old_order_not_symmetric_refuted :
+  exists t h, NoDup (ids t) /\ phys (bwd_inc h None t) <> map mirror (rev (phys (fwd h None t))).
 Proof.
   exists (Node 0 [Node 1 []; Node 2 []]), 1. split.
   - repeat constructor; cbn; intuition discriminate.
-  - exact ps_not_symmetric_example.
+  - exact ps_old_order_not_symmetric_example.
 Qed.
-Print Assumptions C12_ps_not_symmetric_branching_refuted.
+Print Assumptions C12_ps_old_order_not_symmetric_refuted.
 
 (* --- on BasisTree.linear (n sites) the one-site and bond propagations of the whole step, under the site map
    of tree.from_mps (node k = site n-1-k, bond of child c = chain bond n-1-c), are exactly the sequence of
@@ -154,7 +144,7 @@ Example C12_ex_tree : let t := Node 0 [Node 1 [Node 2 []; Node 3 []]; Node 4 []]
   NoDup (ids t) /\ size t = 5%nat /\ iters t = 9%nat /\ fuel_bound t = 14%nat
   /\ ps_forward 9 1 t <> None /\ ps_forward 8 1 t = None
   /\ ev1_of (fwd 1 None t) = [(2%nat, 1); (3%nat, 1); (1%nat, 1); (4%nat, 1); (0%nat, 1)]
-  /\ ev0_of (bwd 1 None t) = [(1%nat, -1); (2%nat, -1); (3%nat, -1); (4%nat, -1)].
+  /\ ev0_of (bwd 1 None t) = [(4%nat, -1); (1%nat, -1); (3%nat, -1); (2%nat, -1)].
 Proof.
   cbv zeta. split; [repeat constructor; cbn; intuition discriminate|].
   vm_compute. repeat split; discriminate.
